@@ -89,7 +89,10 @@ func NewEventSystem(logger log.Logger, cometWSClient *cmtjrpcclient.WSClient) *E
 // WithContext sets a new context to the EventSystem. This is required to set a timeout context when
 // a new filter is intantiated.
 func (es *EventSystem) WithContext(ctx context.Context) {
+	// the context is read by the event loop (under the same lock) while requests of other clients set it
+	es.indexMux.Lock()
 	es.ctx = ctx
+	es.indexMux.Unlock()
 }
 
 // subscribe performs a new event subscription to a given CometBFT event.
@@ -198,7 +201,7 @@ func (es *EventSystem) subscribeLogs(crit filters.FilterCriteria) (*Subscription
 }
 
 // SubscribeNewHeads subscribes to new block headers events.
-func (es EventSystem) SubscribeNewHeads() (*Subscription, pubsub.UnsubscribeFunc, error) {
+func (es *EventSystem) SubscribeNewHeads() (*Subscription, pubsub.UnsubscribeFunc, error) {
 	sub := &Subscription{
 		id:        rpc.NewID(),
 		typ:       filters.BlocksSubscription,
@@ -212,7 +215,7 @@ func (es EventSystem) SubscribeNewHeads() (*Subscription, pubsub.UnsubscribeFunc
 }
 
 // SubscribePendingTxs subscribes to new pending transactions events from the mempool.
-func (es EventSystem) SubscribePendingTxs() (*Subscription, pubsub.UnsubscribeFunc, error) {
+func (es *EventSystem) SubscribePendingTxs() (*Subscription, pubsub.UnsubscribeFunc, error) {
 	sub := &Subscription{
 		id:        rpc.NewID(),
 		typ:       filters.PendingTransactionsSubscription,
